@@ -2,6 +2,8 @@
 
 package tlcp
 
+//verif:twin dtlcp
+
 import (
 	"bytes"
 	"errors"
@@ -94,7 +96,7 @@ func (m *verifMAC) Sum(b []byte) []byte {
 			// (the tag is compared with the 32 bytes that follow the MAC'd data inside some attacker record)
 			n := len(msg) - 13
 			for _, rs := range vmac.recStarts {
-				off := rs + 5 + 16 + n
+				off := rs + vmacRecordHeaderLen + 16 + n
 				if n < 0 || off+32 > len(vmac.wire) {
 					continue
 				}
@@ -114,43 +116,4 @@ type verifRandSrc struct{}
 func (verifRandSrc) Read(p []byte) (int, error) {
 	copy(p, verifNondetBytes("rand", len(p)))
 	return len(p), nil
-}
-
-const (
-	vcGCM = 1
-	vcCBC = 2
-)
-
-var valerts struct {
-	n     int
-	codes [8]uint8
-}
-
-// newEstablished builds a connection in the state the handshake leaves it in: version fixed, handshake
-// complete, cipher of the given kind installed in both directions.
-func newEstablished(t *verifConn, kind int, iv []byte, sender bool) *Conn {
-	c := &Conn{conn: t, config: &Config{DynamicRecordSizingDisabled: true, Rand: verifRandSrc{}}}
-	c.config.OnAlert = func(code uint8, conn *Conn) {
-		if valerts.n < len(valerts.codes) {
-			valerts.codes[valerts.n] = code
-		}
-		valerts.n++
-	}
-	c.vers = VersionTLCP
-	c.haveVers = true
-	c.in.version, c.out.version = VersionTLCP, VersionTLCP
-	c.handshakeStatus = 1
-	c.handshakes = 1
-	switch kind {
-	case vcGCM:
-		a := &prefixNonceAEAD{aead: verifInnerAEAD{}}
-		copy(a.nonce[:], iv)
-		b := &prefixNonceAEAD{aead: verifInnerAEAD{}}
-		copy(b.nonce[:], iv)
-		c.in.cipher, c.out.cipher = a, b
-	case vcCBC:
-		c.in.cipher, c.out.cipher = &verifCBC{}, &verifCBC{}
-		c.in.mac, c.out.mac = &verifMAC{sender: sender}, &verifMAC{sender: sender}
-	}
-	return c
 }
